@@ -86,7 +86,13 @@ def abtest_vectors(chk, rnd):
     extra = [['0.9', None], ['0.1', None], [None, '0.25'], ['0.5', '0.3', None], ['0.2', None, '0.3'], ['0.6', '0.3', '0.1'],
              ['0.5', '0.25', '0.125', None], ['3', None], ['3', '1', None], [None, '2', '4', None], [None, None],
              [None, None, None], ['0.3', '0.3', '0.3', None], ['0.2', '0.2', '0.2', '0.2', None],
-             ['7', '5', '3', '2', '1', '1'], ['0.05', '0.15', '0.2', '0.25', '0.3', None], ['10', '1'], ['100', '1', '1']]
+             ['7', '5', '3', '2', '1', '1'], ['0.05', '0.15', '0.2', '0.25', '0.3', None], ['10', '1'], ['100', '1', '1'],
+             # explicit fractions that do not add up to one are normalised like any other targets
+             ['0.5', '0.25'], ['0.33', '0.33', '0.33'], ['0.3', '0.2', '0.1', '0.1'], ['0.2', '0.1'], ['0.01', '0.02'],
+             ['0.45', '0.45'], ['0.9', '0.3'], ['0.7', '0.7', '0.7']]
+    for _ in range(20 if chk.quick else 200):   # random explicit fractions, any sum
+        k = rnd.randint(2, 4)
+        extra.append([f'0.{rnd.randint(1, 99):02d}' for _ in range(k)])
     for _ in range(120 if chk.quick else 0):      # a sample of 5 and 6 variants also in the quick tier
         k = rnd.randint(5, 6)
         vecs.append([str(rnd.choice([1, 1, 2, 3, 5, 7])) for _ in range(k)])
